@@ -576,11 +576,64 @@ def run(run, driver_ok=True, deep=False):  # pylint: disable=redefined-outer-nam
             for key, message in Dispatch.prop(case):
                 run.finding(key, message, case)
     clsrun.run_cases(run, cls_cases, driver_ok)
+    inconsistent_header_probe(run)
     skipped = sum(1 for c in cases if c['kind'] == 'obj' and
                   not spec_conformant(c['gen'], fields(ObjOracle.build(c))) and c['gen'] == 'MySQLHandshakeV10')
     run.notes.append('HandshakeV10 objects outside the part-2 agreement domain (reference comparison skipped, '
                      'correspondence still run): {}'.format(skipped))
     run.notes.append('LDAP: implementation-side only (asn1crypto); Lean carries the two encodings as specification constants')
+
+
+def inconsistent_header_probe(run):  # pylint: disable=redefined-outer-name
+    """OpenVPN: the remote session id is on the wire iff the packet-id (ACK) array is non-empty.  An object built with
+    one but not the other has no encoding: compose() must refuse it with a documented error, or - if it does emit
+    bytes - they must be the specified layout of an object that parses back equal"""
+    from cryptoparser.tls import openvpn
+    combos = [([], 0x99aabbccddeeff00), ([], 0), ([7], None), ([1, 2, 3], None)]
+    builders = [
+        ('OpenVpnPacketControlV1', lambda ids, rsid: openvpn.OpenVpnPacketControlV1(0x1122334455667788, ids, rsid, 5, b'payload')),
+        ('OpenVpnPacketAckV1', lambda ids, rsid: openvpn.OpenVpnPacketAckV1(0x1122334455667788, rsid, ids)),
+        ('OpenVpnPacketHardResetServerV2', lambda ids, rsid: openvpn.OpenVpnPacketHardResetServerV2(0x1122334455667788, rsid, ids, 9)),
+    ]
+    for name, build in builders:
+        for ids, rsid in combos:
+            run.evaluations += 1
+            case = {'kind': 'ovpn-inconsistent', 'cls': name, 'ids': ids, 'rsid': rsid}
+            for key, msg in inconsistent_case(case, build):
+                run.finding(key, msg, case)
+
+
+def inconsistent_case(case, build=None):
+    from cryptoparser.tls import openvpn
+    if build is None:
+        build = {
+            'OpenVpnPacketControlV1': lambda ids, rsid: openvpn.OpenVpnPacketControlV1(0x1122334455667788, ids, rsid, 5, b'payload'),
+            'OpenVpnPacketAckV1': lambda ids, rsid: openvpn.OpenVpnPacketAckV1(0x1122334455667788, rsid, ids),
+            'OpenVpnPacketHardResetServerV2': lambda ids, rsid: openvpn.OpenVpnPacketHardResetServerV2(0x1122334455667788, rsid, ids, 9),
+        }[case['cls']]
+    name = case['cls']
+    try:
+        obj = build(list(case['ids']), case['rsid'])
+    except Exception:  # pylint: disable=broad-except
+        return []           # refused at construction: fine
+    try:
+        data = bytes(obj.compose())
+    except Exception as exc:  # pylint: disable=broad-except
+        line = core.err_line(exc)
+        if line.startswith('ERR '):
+            return []
+        return [('inconsistent-header:' + name, '{}(ids={}, remote_session_id={}).compose() raised {}'.format(
+            name, case['ids'], case['rsid'], line))]
+    try:
+        back = type(obj).parse_exact_size(data)
+        if canon.generic(back) == canon.generic(obj):
+            return []
+        what = 'parses back as a different object'
+    except Exception as exc:  # pylint: disable=broad-except
+        what = 'is not parsable ({})'.format(core.err_line(exc))
+    return [('inconsistent-header:' + name, '{}(ids={}, remote_session_id={}) has no encoding (the remote session id is on the '
+             'wire iff packet ids are acknowledged) but compose() emitted {} which {}'.format(
+                 name, case['ids'], case['rsid'], hx(data), what))]
 
 
 def search(run, proof):  # pylint: disable=redefined-outer-name
@@ -595,4 +648,6 @@ def search(run, proof):  # pylint: disable=redefined-outer-name
 
 
 def replay(case):
+    if case.get('kind') == 'ovpn-inconsistent':
+        return inconsistent_case(case)
     return Dispatch.prop(case)
